@@ -3,10 +3,10 @@ C09 - The MOF compiler is total: it succeeds or raises MOFCompileError.
 DESIGN.md 4.9.
 
 Sub-checks
-  mutated    grammar-generated valid compilation units and the repository's
-             MOF corpus, tokenised and mutated at token level, through
-             MOFCompiler.compile_string on a MOFWBEMConnection
-  text       arbitrary text, MOF-alphabet text, token soup, decoded bytes
+  strings    MOFCompiler.compile_string on a MOFWBEMConnection: (80 %)
+             grammar-generated valid compilation units and the repository's
+             MOF corpus, tokenised and mutated at token level; (20 %)
+             arbitrary text, MOF-alphabet text, token soup, decoded bytes
   typed      (exhaustive) initialiser literal x declared type x scalar/array
              x syntactic place (qualifier declaration default, qualifier
              value, property default with/without qualifier list, instance
@@ -14,8 +14,10 @@ Sub-checks
   files      compile_file / #pragma include structures in a scratch
              directory: chains, sub directories, missing, self and mutually
              including files, search path dependencies, non-UTF-8 bytes
-  repofault  a BaseRepositoryConnection that answers the k-th call of an
-             operation with CIMError(code), all codes 1..28, 1-3 faults
+  repofault  (exhaustive) a repository connection that answers the k-th
+             call of an operation with CIMError(code): every single fault
+             (9 operations x k 1..6 x codes 1..28 x 5 units x 2 namespaces)
+             and pairs "fault that starts a recovery path + fault in it"
   mock       FakedWBEMConnection.compile_mof_string
   termination (finite list) inputs with super-linear risk
 
@@ -49,7 +51,7 @@ from .runner import Sub, CaseTimeout, HarnessError
 
 PROPERTY = 'C09'
 RULE = (
-    "mutated: a valid compilation unit (generated from the MOF grammar: "
+    "strings: a valid compilation unit (generated from the MOF grammar: "
     "qualifier declarations of all types, 1-3 classes with properties of all "
     "14 types scalar/array with defaults, references, methods, aliases, "
     "instances with typed values, embedded-instance strings, pragmas; or a "
@@ -58,16 +60,20 @@ RULE = (
     "truncate, replace/insert a token of a pool of keywords, punctuation, "
     "literals of every kind, huge numbers, undefined aliases, unterminated "
     "string/comment, bad escapes, malformed pragmas, illegal characters, "
-    "odd white space incl. bare CR and multi-line comments between tokens); "
-    "text: st.text, MOF-alphabet text, token soup, decoded bytes; typed: "
+    "odd white space incl. bare CR and multi-line comments between tokens), "
+    "20 % of the cases are st.text, MOF-alphabet text, token soup or "
+    "decoded bytes instead; typed: "
     "every (place, declared type, scalar/array, literal kind) combination, "
     "enumerated completely; files: include/search-path structures with one "
-    "mutated file; repofault: valid units against a repository stub raising "
-    "CIMError(code 1..28) at the k-th call of an operation, 1-3 faults; "
-    "mock: mutated units through FakedWBEMConnection.compile_mof_string; "
+    "syntax-mutated file; repofault: valid units against a repository stub "
+    "raising CIMError(code 1..28) at the k-th call (k 1..6) of each of 9 "
+    "operations, all single faults and recovery-path pairs, enumerated "
+    "completely; mock: units with statements dropped/repeated/moved and "
+    "syntax mutations through FakedWBEMConnection.compile_mof_string; "
     "termination: a fixed list of inputs with super-linear risk.  "
     "Non-trivial = the input has >= 5 tokens and is 1-2 mutations away from "
-    "a unit that compiles (mutated, files, mock), or has >= 5 tokens (text), "
+    "a unit that compiles (strings, files, mock), or has >= 5 tokens (text "
+    "cases of strings), "
     "or literal kind differs from the declared type (typed), or a fault at "
     "call k >= 2 or more than one fault (repofault).  Distinct = distinct "
     "generated example.")
@@ -79,9 +85,17 @@ ASSUMPTIONS = [
     "a MOFCompileError whose lineno, column and context are all None (the "
     "documented result of parser_token=None, e.g. 'Unexpected end of MOF') "
     "is accepted as carrying no position",
-    "position checks are skipped for units that contain embedded-object "
-    "strings (errors inside the embedded MOF are positioned relative to "
-    "that string, which the exception does not expose)",
+    "position checks are skipped for errors raised while the MOF text of an "
+    "embedded-object value is compiled (compile_embedded_value on the "
+    "traceback): they are positioned relative to that string, which the "
+    "exception does not expose",
+    "the PLY tables are built once per process with pywbem's own _build() "
+    "from the tree under test and registered as pywbem._mofparsetab/"
+    "_moflextab, as an installed pywbem has them; without them every "
+    "MOFCompiler() regenerates the LALR tables (55 ms instead of 0.5 ms)",
+    "files/mock use only syntax-level and statement-level mutations; the "
+    "value/type mutations are exercised by strings and typed (same "
+    "compiler code)",
     "MOFCompileError.column is documented as 1-based and .context as [.., "
     "line in error, pointer line]; column/lineno/context are compared with "
     "each other and with the input text only as far as these docstrings say",
@@ -99,7 +113,32 @@ ASSUMPTIONS = [
     "inputs below 200 kB; the exponential case exceeds any limit (4x per "
     "additional escape), the others finish in milliseconds" % 10,
 ]
-SENSITIVITY = []   # filled at the end of the module
+SENSITIVITY = [
+    "t_error returns None without skipping -> strings/leak:LexError@"
+    "compile_string",
+    "p_error raises ValueError(msg) instead of MOFParseError -> "
+    "strings/leak:ValueError@p_error",
+    "p_mp_setQualifier: 'raise MOFRepositoryError(...)' of the else branch "
+    "replaced by bare 'raise' -> repofault/leak:pywbem.CIMError@"
+    "p_mp_setQualifier:from-SetQualifier-after-0-handled-faults (missed at "
+    "first: same signature as the unwrapped retry; the fault history was "
+    "added to the signature)",
+    "p_mp_createInstance: translation of the CreateInstance CIMError "
+    "removed -> repofault/leak:pywbem.CIMError@p_mp_createInstance:"
+    "from-CreateInstance-after-0-handled-faults",
+    "_find_column returns lexpos (not line relative) -> strings/position:"
+    "column-far-from-pointer, strings/position:column-outside-line-"
+    "token-error",
+    "t_newline does not advance lexer.lineno -> strings/position:"
+    "token-error:context-is-not-line-lineno",
+    "MOFCompileError stores file=None -> files/position:"
+    "file-is-not-a-compiled-file",
+    "compile_embedded_value: 'finally: embedded_objects = None' removed -> "
+    "strings|typed/reuse:check-unit-fails-after-MOFCompileError:"
+    "MOFParseError",
+    "compile_string keeps the previous target_namespace -> strings/reuse:"
+    "check-unit-result-differs-after-MOFCompileError",
+]
 
 TIMEOUT = 10
 CHECK_NS = 'verif/chk'
